@@ -384,6 +384,8 @@ fn posting_price_event<'ctx>(
                 price_y: *rate,
                 date,
             },
+            // zero amount with the total cost can't tell the price per unit.
+            Exchange::Total(_) if amount.value.is_zero() => return Ok(None),
             Exchange::Total(total) => PriceEvent {
                 price_x: amount.abs(),
                 price_y: *total,
